@@ -183,6 +183,15 @@ def generate(ctx):
               b'2.4703282292062327e-324', b'1e99999999999999999999', b'1e-99999999999999999999', b'0e99999999999999999999']:
         docs.append(t)
         ctx.add('parse_value %s' % gen.hexarg(t), meta=('doc', t, False))
+    # the boundary of the grammar (coq/JsonGrammar.v): each named relaxation / deviation and the nearest texts outside the language
+    for t in [b'"\\uD800\\u0041"', b'"\\uD800\\u{0041}"', b'"\\uD800\\uD800\\uDC00"', b'"\\u{D800}"', b'"\\u{DC00}"', b'"\\uD83D\\u{DE00}"',
+              b'"\\u{D83D}\\uDE00"', b'"\\u{D83D}\\u{DE00}"', b'"\\u{00e9}"', b'"\\u{1F600}"', b'"\\u{41}"', b'"\\u{041}"', b'"\\u{00041}"', b'"\\u{0041"',
+              b'"\\uD800"', b'"\\uD800x"', b'"\\uD800\\n"', b'"\\uD800\\u"', b'"\\uD800\\u12"', b'"\\uDC00\\uD800"', b'"\\u00G0"', b'"\\U0041"', b'"\\a"', b'"\\x0C"',
+              b'[1\\x0C,\\n2\\t]\\r', b'\\x0C1', b'\\x0c1', b'\\f1', b'\\ 1', b'\\b1', b'\\n', b'1\\', b'1\\x0', b'\x0b1', b'\xa01', b'{"a"\\n:\\t1\x0c}', b'{\\n}', b'[\\x0C]',
+              b'"\x00\x1f\x7f"', b'"\xc3"', b'"\xc3\\u00a9"', b'"\xed\xa0\x80"', b'"\xf4\x90\x80\x80"', b'"\xc0\xaf"',
+              b'01', b'-01', b'1.', b'.5', b'-.5', b'+1', b'1e', b'1e+', b'-', b'--1', b'0x10', b'1.5.2', b'1e5e5', b'00', b'-0', b'0.0e-0', b'1E+02',
+              b'[1,]', b'[,1]', b'[1 2]', b'{"a":1,}', b'{,}', b'{"a" 1}', b'{a:1}', b'{1:1}', b'{"a":1 "b":2}', b'{"a":1,"a":2,"b":3,"a":4}', b'', b' ', b'1 2', b'nulll', b'tru']:
+        ctx.add('parse_value %s' % gen.hexarg(t), kind='grammar', meta=('raw', t))
     # corruptions of well-formed documents
     for t in r.sample(docs, min(len(docs), ctx.scale(500, 10000))):
         if len(t) > 80:
